@@ -436,7 +436,8 @@ fn unify(template: &Ty, actual: &Ty, subst: &mut Subst) -> Result<(), String> {
             Ok(())
         }
         (Ty::TEnum { name: ln }, Ty::TEnum { name: rn })
-        | (Ty::TStruct { name: ln }, Ty::TStruct { name: rn }) => {
+        | (Ty::TStruct { name: ln }, Ty::TStruct { name: rn })
+        | (Ty::TDyn { trait_name: ln }, Ty::TDyn { trait_name: rn }) => {
             if ln != rn {
                 return Err("type constructor mismatch".to_string());
             }
@@ -458,7 +459,8 @@ fn unify(template: &Ty, actual: &Ty, subst: &mut Subst) -> Result<(), String> {
             }
             unify(le, re, subst)
         }
-        (Ty::TRef { elem: le }, Ty::TRef { elem: re }) => unify(le, re, subst),
+        (Ty::TVec { elem: le }, Ty::TVec { elem: re })
+        | (Ty::TRef { elem: le }, Ty::TRef { elem: re }) => unify(le, re, subst),
         (
             Ty::TFunc {
                 params: lp,
